@@ -42,6 +42,16 @@ CHANGE = {
  'C18b': ("martian/core/shell_quote.go appendShellSafeQuote", "'!' is escaped as \\! although a backslash before ! is kept literally inside double quotes"),
  'C19b': ("martian/syntax/refactoring/rename_output_param.go updatePipelineRetain.update", "pipeline retain entries are matched by call id only: renaming an output that is not the first retained one of its call overwrites the first entry"),
  'C19a': ("martian/syntax/refactoring/rename_callable.go updateRef", "projection references are matched by name prefix: renaming output 'res' also rewrites CALL.res_alt.a"),
+ 'C01c': ("martian/syntax/disabled_exp.go DisabledExp.makeDisabledExp", "case *RefExp lost '&& id.Disabled == disable': a value already guarded by one run-time disable control does not get a second, different control, so a pass-through output of a disabled pipeline keeps the value of an enabled producer outside it"),
+ 'C02c': ("martian/core/stage.go Fork.getState", "the chunk-state fold assigns 'complete = state == Complete' instead of clearing it: the join starts as soon as the highest-index chunk is complete while a lower-index chunk is still running"),
+ 'C03c': ("martian/core/fork.go Fork.expandForkSplitInnerPart", "the recursive SplitExp case indexes with the outer fork index (id.Id) instead of the middle one: with three nested run-time map levels the innermost call of fork (a,b) is sized from v[a][a]"),
+ 'C04c': ("martian/core/storage.go anyOverlap", "off-by-one in the 'referenced file is inside the walked directory' guard: an output named <subdir>/<one-character name> no longer keeps its parent directory alive, which VDR then removes with the file in it"),
+ 'C05c': ("cmd/mrjob/mrjob.go runner.WaitLoop", "the critical section around the final Complete()/Fail() was removed: a SIGTERM from mrp's death between the job's _complete and the monitor's exit also writes _errors, and the restarted mrp re-runs the completed job"),
+ 'C06c': ("martian/core/node.go Node.setPrenode", "the preflight prerequisite is no longer propagated into sub-pipelines: a stage nested in a sub-pipeline starts although the enclosing pipeline's preflight fails"),
+ 'C12c': ("martian/core/jobmanager_local.go LocalJobManager.GetSystemReqs", "the clamp to --localcores compares whole cores with integer division: a request between maxCores and maxCores+1 threads is not clamped and the semaphore refuses it"),
+ 'C13c': ("martian/syntax/compile_types.go StructType.compile", "the duplicate output-file-name check uses GetOutName (explicit names only) instead of GetOutFilename: an explicit out name equal to a sibling's default file name compiles, and post-processing silently skips the second output"),
+ 'C14c': ("martian/core/node.go cloneFork", "forks created at run time share the template fork's inner filePostNodes maps: a fork whose output names no file removes the argument from all siblings' sets and their files are never released"),
+ 'C15c': ("martian/core/pipestance.go Pipestance.Lock", "the signal handler is registered before the 'already locked' check: a refused second attach that receives a signal deletes the live owner's _lock"),
 }
 matrix = collections.defaultdict(list)
 mp = os.path.join(ROOT, 'matrix.jsonl')
